@@ -633,7 +633,11 @@ pub fn run_history(acc: &mut Acc, r: &mut Rng, steps: u64, prop: &str) {
         } else if op < 38 {
             // direct transfer to the collector (distribution asset or another one)
             let d = *r.pick(&[DIST, DIST, "usdc", "uatom"]);
-            let amt = *r.pick(&[1u128, 999, 1000, 1001, 5_000_000]);
+            let mut amt = *r.pick(&[1u128, 999, 1000, 1001, 5_000_000]);
+            if d == DIST && r.chance(1, 4) {
+                // 18-decimal sized inflow of the distribution asset: balance x rate x 1e18 crosses 2^128
+                amt = *r.pick(&[1_000_000_000_000_000_000_000u128, 3_000_000_000_000_000_000_000_000, 340_282_366_920_938_463_463]);
+            }
             wd.log(format!("transfer-to-collector {amt}{d}"));
             let c = wd.core.collector.clone();
             let _ = bank_send(&mut wd.app, &usr, &c, amt, d);
